@@ -690,7 +690,11 @@ impl VhostUserSingleMemoryRegion {
 
 // SAFETY: Safe because all fields of VhostUserSingleMemoryRegion are POD.
 unsafe impl ByteValued for VhostUserSingleMemoryRegion {}
-impl VhostUserMsgValidator for VhostUserSingleMemoryRegion {}
+impl VhostUserMsgValidator for VhostUserSingleMemoryRegion {
+    fn is_valid(&self) -> bool {
+        self.region.is_valid()
+    }
+}
 
 /// Get shared memory regions configuration.
 #[repr(C)]
